@@ -91,7 +91,14 @@ class Model:
                 self._block(st.get('body'), e2)
         elif k == 'opcall' and st.get('op') == '=':
             self._assign(st, env)
-        elif k in ('decl', 'null'):
+        elif k == 'decl':
+            # named constants of the constructor (`const unsigned base = 0x20 + i * 0x10;`): evaluated in the current environment
+            for v in st.get('vars', []):
+                if 'init' in v and not v.get('isref'):
+                    val = self.ev.eval(v['init'], env)
+                    if val is not None:
+                        env[v['name']] = val
+        elif k == 'null':
             pass
         else:
             self.problems.append((st.get('l'), 'unrecognised statement kind %s in MMIORegion::MMIORegion' % k))
